@@ -18,6 +18,7 @@ from .tokens.operator import OperatorToken, Separator, Intersect
 from .tokens.function import Function, Array
 from .tokens.parenthesis import Parenthesis
 from .builder import AstBuilder
+from . import _verif
 
 
 class Parser:
@@ -51,6 +52,10 @@ class Parser:
                 try:
                     token = f(expr, context)
                     token.ast(tokens, stack, builder)
+                    if _verif.ON: _verif.emit(
+                        'tok', cls=type(token).__name__, name=token.name,
+                        n=token.end_match
+                    )
                     expr = expr[token.end_match:]
                     break
                 except TokenError:
